@@ -1012,6 +1012,15 @@ class Engine:
             return res
         if n.get('k') == 'CXXOperatorCallExpr' and n.get('op') in ('==', '!=', '<', '<=', '>', '>='):
             kids = children(n)[1:]
+            if len(kids) == 2 and n.get('ckey') in self.prog.by_key and any(
+                    callee.startswith(pfx) for pfx in self.cfg.get('inline', ())):
+                # a comparison operator of the repository that is analysed by inlining: its value decides
+                vals = self.ev(n, st, func)
+                if vals and all(isinstance(v, Lin) for v, _ in vals):
+                    res = []
+                    for v, s1 in vals:
+                        res.extend(self.compare('!=', v, lin(0), s1, n, func))
+                    return res
             if len(kids) == 2:
                 res = []
                 for x, s1 in self.ev(kids[0], st, func):
@@ -1649,6 +1658,8 @@ class Engine:
             if r is not None:
                 return r
         hook = self.cfg.get('loop_summary')
+        if hook is None and self.cfg.get('track_content') and self.loop_depth == 1:
+            hook = byte_fill_loop_summary
         if hook is not None and self.loop_depth == 1:
             # a loop whose complete effect on memory can be stated as one log entry ('map'): the entry is added
             # by the hook, the writes of the generic analysis of the body are not logged again
@@ -2575,6 +2586,90 @@ def _up_region(eng, st, ov):
         if region in st.regions:
             return Ptr(region, 0)
     return UNKNOWN
+
+
+def byte_fill_loop_summary(eng, n, states, func):
+    """for (i = a; i < b; ++i) region[ base + i] = v;  with v independent of i: one 'fill' log entry per incoming
+    state (the loop is a memset written by hand).  Returns True when every incoming state was summarised."""
+    if n.get('k') != 'ForStmt':
+        return False
+    init, _cv, cond, inc, body = (n.get('c', []) + [None] * 5)[:5]
+    if cond is None or inc is None or body is None:
+        return False
+    c0 = strip_all_casts(cond)
+    if c0.get('k') != 'BinaryOperator' or c0.get('op') not in ('<', '<='):
+        return False
+    vars_, fields, _ht, incs, decs = eng.modified_in([cond, inc], func)
+    if len(vars_) != 1 or fields:
+        return False
+    var = sorted(vars_)[0]
+    bvars, bfields, _h2, _i2, _d2 = eng.modified_in([body], func)
+    if bvars or bfields:
+        return False                # the body changes scalars: not a plain fill
+    entries = []
+    mark = len(eng.obligations)
+    depth = eng.loop_depth
+    eng.loop_depth = 0
+    try:
+        for s_in in states:
+            if s_in.status != 'normal':
+                continue
+            s0 = s_in.copy()
+            cur = [s for s in eng.stmt(init, [s0], func) if s.status == 'normal'] if init is not None else [s0]
+            if len(cur) != 1:
+                return False
+            s0 = cur[0]
+            h0 = s0.vars.get(var)
+            if not isinstance(h0, Lin):
+                return False
+            head = s0.copy()
+            hname = 'iter@%s#%d' % (n['id'], next(eng.counter))
+            h = Lin.sym(hname)
+            eng.type_range(head, h, eng.var_type(func, var, n) or 'unsigned long')
+            head.assume(ge(h, h0), le(h, (1 << 62)))
+            head.vars[var] = h
+            lhs, rhs = children(c0)
+            lv, rv = eng.ev(lhs, head.copy(), func), eng.ev(rhs, head.copy(), func)
+            if len(lv) != 1 or len(rv) != 1 or not isinstance(lv[0][0], Lin) or not isinstance(rv[0][0], Lin):
+                return False
+            L_, R_ = lv[0][0], rv[0][0]
+            k = L_ - h
+            if hname in [str(x) for x in k.syms()] or hname in [str(x) for x in R_.syms()]:
+                return False
+            hi = (R_ - k) if c0['op'] == '<' else (R_ - k + 1)
+            trues = [s for t, s in eng.cond(cond, head.copy(), func) if t]
+            if not trues:
+                entries.append((s_in, None))
+                continue
+            if len(trues) != 1:
+                return False
+            s1 = trues[0]
+            m = len(s1.wlog)
+            rs = eng.stmt(body, [s1], func)
+            if len(rs) != 1 or rs[0].status != 'normal':
+                return False
+            new = rs[0].wlog[m:]
+            if len(new) != 1 or new[0][0] != 'put' or not isinstance(new[0][1], Ptr) or not isinstance(new[0][2], Lin):
+                return False
+            dst, val = new[0][1], new[0][2]
+            c = dst.off - h
+            if hname in [str(x) for x in c.syms()] or hname in [str(x) for x in val.syms()]:
+                return False
+            after = [s2 for _, s2 in eng.ev(inc, rs[0], func)]
+            if len(after) != 1:
+                return False
+            h2 = after[0].vars.get(var)
+            if not (isinstance(h2, Lin) and entails(after[0].cons, ge(h2, h + 1)) and entails(after[0].cons, le(h2, h + 1))):
+                return False
+            entries.append((s_in, ('fill', Ptr(dst.region, h0 + c), val, hi - h0)))
+    finally:
+        eng.loop_depth = depth
+        del eng.obligations[mark:]
+    for s_in, e in entries:
+        if e is not None:
+            # (a loop that cannot run writes nothing; a negative count does not occur: hi >= h0 on the exit path)
+            s_in.wlog.append(e)
+    return bool(entries)
 
 
 def m_identity(eng, n, st, func, want):
